@@ -221,7 +221,8 @@ class SymCtx:
 class ConcCtx:
   symbolic = False
 
-  def __init__(self, values=None, rng=None, tol=1e-6, int_ranges=None, scale=2.0):
+  def __init__(self, values=None, rng=None, tol=1e-6, int_ranges=None, scale=2.0, relative=False):
+    self.relative = relative
     self.values = values       # None -> random sampling
     self.rng = rng or random.Random(0)
     self.tol = tol
@@ -297,6 +298,9 @@ class ConcCtx:
   # ---- conditions -----------------------------------------------------------------------
   def _tol(self, a, b, tol):
     tol = self.tol if tol is None else tol
+    if self.relative:
+      # purely relative: a snap or offset that is large compared with the values is a difference
+      return tol * max(abs(float(a)), abs(float(b)))
     return tol * (1.0 + max(abs(float(a)), abs(float(b))))
 
   def eq(self, a, b, tol=None):
@@ -423,7 +427,7 @@ def run_concrete(case, values=None, seed=0, n=1, tol=None):
   while done < n and tries < 60 * n:
     tries += 1
     ctx = ConcCtx(values=values, rng=rng, tol=tol if tol is not None else case.get('tol', 1e-6),
-                  scale=case.get('scale', 2.0))
+                  scale=case.get('scale', 2.0), relative=case.get('relative_tol', False))
     try:
       with warnings.catch_warnings(record=True) as rec:
         warnings.simplefilter('always')
